@@ -67,7 +67,23 @@ class W0:          # class 4: wrapped; class 5: its wrapper
 
 
 W1 = pg.wrap(W0)
-CLASSES = {1: CA, 2: CB, 3: CC, 4: W0, 5: W1}
+_FAULT = threading.local()     # .on: the user functions of this thread raise (InnerFault)
+
+
+def _faulty() -> bool:
+  return getattr(_FAULT, 'on', False)
+
+
+def fn_dest(cls, *args, **kwargs):
+  """A function used as detour destination: builds the source class itself (allowed: undetoured inside)."""
+  if _faulty():
+    raise _Boom('detour destination function raises')
+  obj = cls(*args, **kwargs)
+  obj.via_fn_dest = True
+  return obj
+
+
+CLASSES = {1: CA, 2: CB, 3: CC, 4: W0, 5: W1, 6: fn_dest}
 CLASS_CODE = {v: k for k, v in CLASSES.items()}
 
 
@@ -87,11 +103,15 @@ TYPE_JSON = {1: {'_type': 'pgverif_scopes_probe.T1', 'x': 1}, 2: {'_type': 'pgve
 
 def _f1(x):
   del x
+  if _faulty():
+    raise _Boom('evaluate function raises')
   return 'f1'
 
 
 def _f2(x):
   del x
+  if _faulty():
+    raise _Boom('evaluate function raises')
   return 'f2'
 
 
@@ -283,10 +303,15 @@ class Observer:
     o['wrap'] = CLASS_CODE.get(dm.get(W0), 0 if W0 not in dm else '?')
     # behavioural confirmation of the mapping (type of a fresh instance)
     for c in (1, 2, 3):
-      want = CLASSES[o['detour'][c - 1]] if isinstance(o['detour'], list) and o['detour'][c - 1] else CLASSES[c]
-      got = type(CLASSES[c]())
-      if got is not want:
-        o['detour'] = f'?{CLASSES[c].__name__}() built {got.__name__}, current_mappings says {want.__name__}'
+      code = o['detour'][c - 1] if isinstance(o['detour'], list) else 0
+      inst = CLASSES[c]()
+      if code == 6:        # a function destination: it builds the source class itself and marks the instance
+        ok = type(inst) is CLASSES[c] and getattr(inst, 'via_fn_dest', False)
+      else:
+        ok = type(inst) is (CLASSES[code] if code else CLASSES[c]) and not getattr(inst, 'via_fn_dest', False)
+      if not ok:
+        o['detour'] = (f'?{CLASSES[c].__name__}() built {type(inst).__name__}'
+                       f'(via_fn_dest={getattr(inst, "via_fn_dest", False)}), current_mappings says code {code}')
         break
     got = type(W0())
     if got is not (W1 if o['wrap'] == 5 else W0):
@@ -374,6 +399,75 @@ class Observer:
     return b
 
 
+def handle_view(m: str, h: Any, cm: Any):
+  """What the object returned by `__enter__` (the scope's user-visible handle) says, in the terms of `view`."""
+  try:
+    if m in ('strfmt', 'reprfmt'):
+      return (m, [_code(h, 'compact', {True: 1, False: 0}, ('compact', 'verbose')),
+                  _code(h, 'verbose', {True: 1, False: 0}, ('compact', 'verbose'))])
+    if m == 'codectx':
+      return (m, [_code(h, 'x', {10: 0, 11: 1}, ('x', 'y')), _code(h, 'y', {10: 0, 11: 1}, ('x', 'y'))])
+    if m == 'viewopt':
+      ef = h.get('extra_flags', {})
+      return (m, {1: _code(h, 'enable_summary_tooltip', {True: 1, False: 0}, ('enable_summary_tooltip', 'extra_flags')),
+                  21: _code(ef, 'a', {0: 0, 1: 1}, ('a', 'b')), 22: _code(ef, 'b', {0: 0, 1: 1}, ('a', 'b'))})
+    if m == 'perm':
+      return (m, int(h.value))
+    if m == 'ctx':
+      vals = {k: v.value for k, v in h.items()}
+      return (m, [_code(vals, 'cx', OVR_CODE, ('cx', 'cy')), _code(vals, 'cy', OVR_CODE, ('cx', 'cy'))])
+    if m in ('detour', 'wrap'):
+      if m == 'wrap':
+        return (m, CLASS_CODE.get(h.get(W0), 0))
+      return (m, [CLASS_CODE.get(h.get(CLASSES[c]), 0) for c in (1, 2, 3)])
+    if m == 'ldtypes':
+      return (m, frozenset(i for i in (1, 2) if h.get(TYPES[i].__name__) is TYPES[i]))
+    if m == 'timeit':
+      return ('timeit_handle', h is cm and not h.has_ended and h.has_started)
+  except Exception as e:   # pylint: disable=broad-except
+    return (m, f'?handle:{type(e).__name__}:{e}')
+  return None
+
+
+def inner_fault(m: str) -> Dict[str, Any]:
+  """Uses the scope of manager m in a way that raises, handles the exception here, inside the block."""
+  res: Dict[str, Any] = {'raised': 0}
+  _FAULT.on = True
+  try:
+    if m == 'detour':
+      for c in (1, 2, 3):
+        if pg.detouring.current_mappings().get(CLASSES[c]) is fn_dest:
+          try:
+            CLASSES[c]()
+          except _Boom:
+            res['raised'] += 1
+    elif m == 'dyn':
+      try:
+        pg.oneof([1, 2])
+      except Exception:   # pylint: disable=broad-except
+        res['raised'] += 1          # _Boom, or the constructor refused under a sealed / accessor scope
+    elif m == 'viewopt':
+      hostile = dict(enable_summary_tooltip=False, extra_flags=dict(a=7, b=7), collapse_level=0)
+      for fn in (lambda: pg.to_html_str(pg.Dict(bad=_BadLeaf()), **hostile),
+                 lambda: pg.view(pg.Dict(x=1), view_id='no-such-view-id', **hostile)):
+        try:
+          fn()
+        except Exception:   # pylint: disable=broad-except
+          res['raised'] += 1
+  finally:
+    _FAULT.on = False
+  return res
+
+
+class _BadLeaf:
+  def __repr__(self):
+    raise _Boom('repr raises')
+  __str__ = __repr__
+
+  def __format__(self, spec):
+    raise _Boom('format raises')
+
+
 # ---------------------------------------------------------------------------------------------
 # Worker threads
 
@@ -419,13 +513,13 @@ class Worker(threading.Thread):
         m, a = cmd[1], cmd[2]
         try:
           cm = make_cm(m, a, self.calls)
-          cm.__enter__()
+          handle = cm.__enter__()
           self.stack.append((m, a, cm))
           if m == 'timeit':
             if self.open_timers == 0:
               self.obs.root_timer = cm
             self.open_timers += 1
-          self.outbox.put(('ok', None))
+          self.outbox.put(('ok', handle_view(m, handle, cm)))
         except Exception as e:  # pylint: disable=broad-except
           self.outbox.put(('error', f'{type(e).__name__}: {e}'))
       elif kind == 'exit':
@@ -461,6 +555,14 @@ class Worker(threading.Thread):
           self.outbox.put(('ok', {'out': outcome, 'cbk': len(self.calls)}))
         except Exception as e:  # pylint: disable=broad-except
           self.outbox.put(('error', f'{type(e).__name__}: {e}'))
+      elif kind == 'end_early':
+        try:
+          timers = [x[2] for x in self.stack if x != 'PROP' and x[0] == 'timeit']
+          self.outbox.put(('ok', {'first_end': bool(timers[-1].end()), 'second_end': bool(timers[-1].end())}))
+        except Exception as e:  # pylint: disable=broad-except
+          self.outbox.put(('error', f'{type(e).__name__}: {e}'))
+      elif kind == 'inner_fault':
+        self.outbox.put(('ok', inner_fault(cmd[1])))
       elif kind == 'enter_refused':
         try:
           cm = make_refused_cm(cmd[1])
@@ -639,6 +741,16 @@ class Replayer:
           prog[t].append((mgr, a))
           if self._is_global(mgr, a):
             gorder.append(t)
+          if payload is not None:
+            # the handle yielded by the manager must describe the scope that is now in effect
+            comp, hv = payload
+            e, _, _ = expected_view(step.state, t)
+            want = True if comp == 'timeit_handle' else e[comp]
+            got = hv if comp in ('viewopt', 'timeit_handle') else _norm(hv)
+            self.hit('handle_checked:' + mgr)
+            if got != want:
+              return [{'clause': 'handle', 'component': mgr, 'thread': t, 'expected': want, 'observed': hv,
+                       'step_kind': kind, 'step_mgr': mgr, 'observed_by': 'enter'}], i
         self.hit('enter:' + mgr)
         if len(prog[t]) >= 2:
           self.hit('nested_enter')
@@ -671,6 +783,19 @@ class Replayer:
           if payload != want:
             return [{'clause': 'exit_outcome', 'component': mgr, 'thread': t, 'expected': want,
                      'observed': payload, 'step_kind': kind, 'step_mgr': mgr, 'observed_by': 'exit'}], i
+      elif kind == 'EndEarly':
+        t, mgr = act[1], 'timeit'
+        status, payload = self.workers[t].call('end_early')
+        self.hit('end_early')
+        if status == 'ok' and payload != {'first_end': True, 'second_end': False}:
+          return [{'clause': 'handle', 'component': 'timeit', 'thread': t, 'expected': 'end() True then False',
+                   'observed': payload, 'step_kind': kind, 'step_mgr': mgr, 'observed_by': 'end'}], i
+      elif kind == 'InnerFault':
+        t, mgr = act[1], act[2]
+        status, payload = self.workers[t].call('inner_fault', mgr)
+        self.hit('inner_fault:' + mgr)
+        if status == 'ok' and payload['raised']:
+          self.hit('inner_fault_raised:' + mgr)
       elif kind == 'EnterRaises':
         t, mgr = act[1], act[2]
         status, payload = self.workers[t].call('enter_refused', mgr)
